@@ -253,6 +253,7 @@ class Check:
                     "events_validated": 0, "mc": [], "negative_controls_rejected": 0}
         self.assumptions = []
         self.infos = []
+        self.needs = []        # (driver statistic, least value): non-vacuity requirements, evaluated by finish()
         os.makedirs(os.path.join(WORK, "replays"), exist_ok=True)
 
     # -- model checking of the specification itself
@@ -353,7 +354,17 @@ class Check:
     def neg(self, module, events, name):
         self.cov["negative_controls_rejected"] += negative_control(module, events, self.wd, name)
 
+    def unmet_needs(self):
+        st = self.cov.get("driver_stats", {})
+        return [(k, st.get(k, 0), least) for k, least in self.needs if st.get(k, 0) < least]
+
     def finish(self, level="model_checking", extra=None):
+        unmet = self.unmet_needs()
+        if unmet and not self.violations:
+            k, v, least = unmet[0]
+            raise ToolError(f"driver never exercised '{k}' (got {v}, need {least}): the check would be vacuous")
+        for k, v, least in unmet:
+            self.infos.append(f"driver did not exercise '{k}' (got {v}, need {least})")
         wall = time.time() - self.t0
         cov = dict(self.cov)
         if extra:
